@@ -1,3 +1,4 @@
+import itertools
 import sys
 from typing import List, Any
 
@@ -80,12 +81,10 @@ class ParseFixer:
             print(msg)
 
         self._errors += 1
-        for sq in range(1000):
+        for sq in itertools.count():
             test = f"{column_name}_fixed_{sq:03}"
             if test not in input_columns:
                 return test
-
-        return "{column_name}-fixed"
 
     def fix_missing_rows_in_column_data(
         self, row: int, row_data: List[str], num_columns: int
